@@ -18,11 +18,51 @@ def _sig(cfg, what):
     return f"{what}:carrier={cfg.get('carrier')}:sizes={'|'.join(map(str, cfg['sizes']))}:fd={fdk}:spec={spec}:params={len(cfg['terms'][0])}"
 
 
+class LibraryRaised(Exception):
+    """The real library raised on a well-posed configuration (already recorded in rec as a violation)."""
+
+    def __init__(self, rec):
+        self.rec = rec
+
+
+def library_exception_info(e):
+    """(is_library, where): did the exception originate in pymablock code (not in the harness / SymC arithmetic)?"""
+    import traceback
+
+    from ..engine import REPO
+
+    tb = traceback.extract_tb(e.__traceback__)
+    inner = tb[-1]
+    where = f"{inner.filename}:{inner.lineno} in {inner.name}"
+    return inner.filename.startswith(str(REPO)), where
+
+
 def _setup(prop, cfg):
     rec = Rec(prop, cfg)
     P = bd.Problem(cfg)
-    Ht, U, Ud = P.run()
-    dHt, dU, dUd = P.dense(Ht), P.dense(U), P.dense(Ud)
+    try:
+        Ht, U, Ud = P.run()
+        dHt, dU, dUd = P.dense(Ht), P.dense(U), P.dense(Ud)
+    except symc.SymbolicDivisionByZero:
+        raise
+    except Exception as e:
+        is_lib, where = library_exception_info(e)
+        if not is_lib:
+            raise
+        # replay at a seeded rational point through the public API with concrete values
+        from .. import sympy_bridge as sb
+
+        model = sb.random_point(int(cfg.get("_seed", 0)))
+        reproduced = False
+        try:
+            _numeric(P, model, callback=(P.carrier == "B"))
+        except Exception as e2:
+            reproduced = type(e2) is type(e)
+        rec.direct_violation(
+            f"library raised {type(e).__name__} on a well-posed input", _sig(cfg, "raised-" + type(e).__name__),
+            {"exception": f"{type(e).__name__}: {e}", "where": where, "replayed_with_concrete_values": reproduced}, reproduced=reproduced,
+        )
+        raise LibraryRaised(rec)
     rec.sample = {
         "config": cfg,
         "symbolic_inputs": sorted(symc.CTX.vars)[:12] + (["..."] if len(symc.CTX.vars) > 12 else []),
@@ -32,10 +72,15 @@ def _setup(prop, cfg):
     from .. import solver
 
     rec.guard("assumptions_sat", solver.assumptions_sat() == "sat")
+    if P.carrier == "C":
+        ok = P.validate_translation(seed=int(cfg.get("_seed", 0)))
+        rec.guard("sympy_translation_validated", ok is not False, ok)
     return rec, P, Ht, U, Ud, dHt, dU, dUd
 
 
 def _numeric(P, model, callback):
+    if P.carrier == "C":
+        return bd.sympy_run(P, model)
     E, terms = P.concretize(model)
     return bd.numeric_run(
         P.sizes, E, terms, hermitian=P.hermitian, fd=P.cfg.get("fd"), max_order=P.max_order, callback=callback
@@ -50,7 +95,10 @@ def _scale(*arrs):
 
 
 def c01(cfg, prop="C01"):
-    rec, P, Ht, U, Ud, dHt, dU, dUd = _setup(prop, cfg)
+    try:
+        rec, P, Ht, U, Ud, dHt, dU, dUd = _setup(prop, cfg)
+    except LibraryRaised as lr:
+        return lr.rec
     elim, kept = P.elim, ~P.elim
     first = None
     for o in P.orders:
@@ -93,7 +141,10 @@ def c01(cfg, prop="C01"):
 
 
 def c02(cfg, prop="C02"):
-    rec, P, Ht, U, Ud, dHt, dU, dUd = _setup(prop, cfg)
+    try:
+        rec, P, Ht, U, Ud, dHt, dU, dUd = _setup(prop, cfg)
+    except LibraryRaised as lr:
+        return lr.rec
     N = P.N
     I, Z = symc.eye(N), symc.zeros(N, N)
 
@@ -184,7 +235,10 @@ def reference_solution(P):
 
 
 def c03(cfg, prop="C03"):
-    rec, P, Ht, U, Ud, dHt, dU, dUd = _setup(prop, cfg)
+    try:
+        rec, P, Ht, U, Ud, dHt, dU, dUd = _setup(prop, cfg)
+    except LibraryRaised as lr:
+        return lr.rec
     N = P.N
     kept = ~P.elim
     rHt, rU, rUd = reference_solution(P)
@@ -252,7 +306,10 @@ def _series_power_traces(S, N, orders, kmax):
 
 
 def c04(cfg, prop="C04"):
-    rec, P, Ht, U, Ud, dHt, dU, dUd = _setup(prop, cfg)
+    try:
+        rec, P, Ht, U, Ud, dHt, dU, dUd = _setup(prop, cfg)
+    except LibraryRaised as lr:
+        return lr.rec
     N = P.N
     orders = P.orders
     Htr = bd.Series((N, N), P.nparams, {o: dHt.get(o) for o in orders})
